@@ -94,18 +94,36 @@ def run_rewards(res, spec):
             res.violation(check, "per-step-rewards-differ", spec=spec, history=hist, observed=[list(mk_obs.rewards), list(idle_obs.rewards)], expected=[want_mk, want_idle])
         if len(hist) == ref.N and ref.N >= 3 and _disp.interleaves(hist):
             res.sample({"spec": spec, "history": hist, "makespan_rewards": want_mk, "idle_rewards": want_idle})
+        # "for every history": also the histories of a later episode, after a
+        # reset issued at this point
+        if hist and len(hist) in (1, ref.N):
+            d2 = impl.mk_dispatcher(live.inst, ())
+            o_mk, o_idle = _env.reward_cls("makespan")(d2), _env.reward_cls("idle")(d2)
+            impl.replay(d2, hist)
+            d2.reset()
+            h2 = rightmost
+            w_mk, w_idle = expected_rewards(ref, h2)
+            for k, c in enumerate(h2, start=1):
+                impl.dispatch(d2, *c)
+                res.add("transitions")
+                if list(o_mk.rewards) != w_mk[:k] or list(o_idle.rewards) != w_idle[:k]:
+                    res.violation(check, "rewards-differ-in-episode-after-reset", spec=spec, first_episode=hist, second_episode=h2[:k], observed=[list(o_mk.rewards), list(o_idle.rewards)], expected=[w_mk[:k], w_idle[:k]])
+                    break
         return None
 
+    rightmost = list(Ref(spec).all_histories())[-1]
     _disp.explore(res, spec, (), visit, check, make_extra=make_extra)
 
 
 def run_env(res, spec):
     check = "env_step_reward"
     ref = Ref(spec)
+    all_h = list(ref.all_histories())
+    first_hist, last_hist = all_h[0], all_h[-1]
     for reward in ("makespan", "idle"):
         for b in ("disjunctive", "agent_task"):
             sig = {"reward": reward, "builder": b}
-            for hist in ref.all_histories():
+            for hist in all_h:
                 env = _env.mk_env(spec, builder_name=b, reward=reward)
                 env.reset()
                 want_mk, want_idle = expected_rewards(ref, hist)
@@ -125,4 +143,14 @@ def run_env(res, spec):
                 res.add("evaluations")
                 if _disp.interleaves(hist):
                     res.add("nontrivial")
+                # second episode on the same environment
+                if hist is first_hist or hist is last_hist:
+                    env.reset()
+                    for k, (j, m) in enumerate(last_hist):
+                        r = env.step((j, m))[1]
+                        res.add("transitions")
+                        w = (expected_rewards(ref, last_hist)[0 if reward == "makespan" else 1])[k]
+                        if r != w:
+                            res.violation(check, "step-reward-differs-in-second-episode", sig=sig, spec=spec, first_episode=hist, second_episode=last_hist[: k + 1], returned=r, expected=w)
+                            break
     res.add("states", len({ref.state(h[:k]).canon() for h in ref.all_histories() for k in range(len(h) + 1)}))
